@@ -41,6 +41,7 @@ package pathbadger
 
 // ---- chunk import (C12): partial pointers of an already imported node are all merged ----
 
+//@ import "github.com/oasisprotocol/oasis-core/go/storage/mkvs/node"
 //@ ghost func PtrMerged(e *node.Pointer, n *node.Pointer) bool { return e == nil || n == nil || e.Hash != n.Hash || e.DBInternal == nil || n.DBInternal != nil }
 //@ ghost func PtrSep(e *node.InternalNode, n *node.InternalNode) bool { return e.Left != n.Left && e.Left != n.Right && e.Left != n.LeafNode && e.Right != n.Left && e.Right != n.Right && e.Right != n.LeafNode && e.LeafNode != n.Left && e.LeafNode != n.Right && e.LeafNode != n.LeafNode }
 
